@@ -382,6 +382,8 @@ pub struct Tr<'a> {
     ptr_alias: HashMap<String, (String, Ty, Option<String>)>,
     /// `let p = s.as_ptr() as *const [T; N];` — p -> N
     ptr_array_len: HashMap<String, String>,
+    /// block-local identity type aliases `type A<T> = T;` (konst's `Type::<RSplit<..>> { .. }` idiom): `A::<X>` is `X`
+    identity_aliases: Vec<String>,
     /// generic parameters bounded by `Pattern` / `BytesPattern`: modelled as the pattern's bytes
     pattern_generics: Vec<String>,
     /// generic parameters replaced by concrete types (witness-arm targets)
